@@ -39,6 +39,7 @@ def supported : Fmt → Pix → Bool
 inductive Outcome (α : Type) where
   | ub                                             -- the writer runs into undefined behaviour
   | done (file : Bytes) (back : Option (Img α))    -- bytes written, image read back (`none` = io_error)
+  deriving DecidableEq
 
 def roundTrip {α} (enc : Img α → Bytes) (dec : Bytes → Settings → Option (Img α)) (img : Img α) : Outcome α :=
   let file := enc img
